@@ -71,7 +71,7 @@ def run_case(case):
         except Exception as e:
             return Outcome(Violation("C04:setup-exception:%s" % type(e).__name__, "creating the metafile raised %r" % (e,)), False)
         if case.get("prime"):
-            rk.tool_recheck(mf, parent if case["content_path"] == "parent" else root)     # first use, on the intact payload
+            rk.tool_recheck(mf, rk.content_of(case, root, parent))     # first use, on the intact payload
         changed = rk.apply_damage(root, case["tree"], case["damage"], keep_mtime=bool(case.get("prime")))
         if not changed:
             return Outcome(None, False, ["no-effective-damage"])
@@ -79,7 +79,7 @@ def run_case(case):
         if ref.percent is None or ref.percent >= 100:
             raise HarnessError("reference verifier reports %r for damaged non-zero content: %r" % (ref.percent, case))
         classes = rk.shape_classes(case, m) + damage_classes(case, changed)
-        pct, exc = rk.tool_recheck(mf, parent if case["content_path"] == "parent" else root)
+        pct, exc = rk.tool_recheck(mf, rk.content_of(case, root, parent))
     ver = classes[0]
     tag = "%s:%s" % (ver, case["meta"]["kind"])
     if "empty-file" in classes:
